@@ -6,7 +6,7 @@ REPO = os.environ.get("VERIF_REPO", "/repo")
 BUILD = os.path.join(VERIF, "build")
 KANI_DIR = os.path.join(VERIF, "kani")
 UNITS = os.path.join(VERIF, "units")
-EVID = os.path.join(VERIF, "evidence")
+EVID = os.environ.get("VERIF_EVIDENCE_DIR", os.path.join(VERIF, "evidence"))
 REPLAYS = os.path.join(VERIF, "replays")
 KNOWN = os.path.join(VERIF, "known-findings.txt")
 
@@ -102,7 +102,7 @@ def list_known():
 
 # ---------------------------------------------------------------- transformed copy of the repository
 
-XREPO = os.path.join(BUILD, "xrepo")
+XREPO = os.path.join(BUILD, "xrepo" if REPO == "/repo" else "xrepo-" + hashlib.sha1(REPO.encode()).hexdigest()[:8])
 _xrepo_state = {}
 
 
